@@ -21,7 +21,9 @@ TRUSTED_BASE = BASE_TRUSTED + [
 RULE = ('kernel cases: seeded inputs cycling through the 24 cells (object finite/infinite x field type x telecentric x aperture '
         'type) x polarization, Hy in [-1,1], pupil points in the unit disk, vignetting in [0,0.5], EPL of both signs; every '
         'named distribution for counts 0..40 (rings 0..8). system: seeded lenses of 1-12 surfaces forced into each cell '
-        '(valid or not; six rejection rules), three classes of field lists (0..+max on y; largest magnitude negative; x and y '
+        '(valid or not; six rejection rules), each reached through one of four routes (fresh Optic / ready-made Surface objects / an '
+        'Optic reused after reset() of a different lens / to_dict -> from_dict), with the configuration taken from the entered '
+        'prescription and never read back; a fixed corpus of 25 prescription x route entries replayed whatever the seed; three classes of field lists (0..+max on y; largest magnitude negative; x and y '
         'extremes on different field points), off-axis Hx, fields with vx != vy, shuffled field lists with vignetting, curved object surfaces, object-space index != 1; '
         'the prescriptions of the three repaired findings replayed on every run; '
         'non-trivial = a launched ray with finite record in a distinct (lens, ray)')
@@ -159,19 +161,23 @@ def _lenses(ctx, per_cell, rays_per, salt=0):
     out = []
     hist = {'lenses': 0, 'build_errors': {}, 'cells': {}, 'launched': 0, 'raised': {}, 'vignetted_fields': 0,
             'curved_object': 0, 'object_index': 0, 'polarized': 0,
-            'field_class': {'positive': 0, 'negative-largest': 0, 'mixed-xy': 0}, 'fields_with_vx_ne_vy': 0, 'off_axis_Hx_rays': 0}
+            'field_class': {'positive': 0, 'negative-largest': 0, 'mixed-xy': 0}, 'fields_with_vx_ne_vy': 0, 'off_axis_Hx_rays': 0,
+            'route': {r: 0 for r in c03lib.ROUTES}, 'prescription_problems': 0}
     for cell in ALL_CELLS:
         for j in range(per_cell):
             spec = c03lib.cell_spec(rng, cell)
             if (len(out) + j) % 5 == 4:
                 spec['polarization'] = True
+            route = c03lib.ROUTES[(len(out) + j) % len(c03lib.ROUTES)]
+            spec['route'] = route
             try:
-                o = c03lib.build(spec)
+                o = c03lib.build(spec, route, rng)
                 o.paraxial.EPL()
             except Exception as e:     # noqa
                 hist['build_errors'][type(e).__name__] = hist['build_errors'].get(type(e).__name__, 0) + 1
                 continue
             hist['lenses'] += 1
+            hist['route'][route] += 1
             hist['cells']['/'.join(str(c) for c in cell)] = hist['cells'].get('/'.join(str(c) for c in cell), 0) + 1
             hist['vignetted_fields'] += int(any(f[2] or f[3] for f in spec['fields']))
             hist['field_class'][spec['field_class']] += 1
@@ -205,14 +211,14 @@ def _cmp_launch(call, res, tol):
     return (f'match {call} with None => false | Some ({", ".join(n + "_" for n in names)}) => {body} end')
 
 
-def _generic_pupil(o, ray):
-    """what trace_generic hands to generate_rays"""
+def _generic_pupil(spec, ray):
+    """what trace_generic hands to generate_rays: pupil coordinates scaled by (1 - v) of the ENTERED field list"""
+    import c03lib
     Hx, Hy, Px, Py, w = ray
-    try:
-        vx, vy = o.fields.get_vig_factor(Hx, Hy)
-    except NotImplementedError:
+    v = c03lib.entered_vig(spec, Hx, Hy)
+    if v is None:
         return ray
-    return (Hx, Hy, Px * (1 - float(vx)), Py * (1 - float(vy)), w)
+    return (Hx, Hy, Px * (1 - v[0]), Py * (1 - v[1]), w)
 
 
 def system_checks(ctx):
@@ -255,11 +261,15 @@ def system_checks(ctx):
             res['disagreements'].append({'note': f'{r[1] - len(r[2])} further mismatches in one shard', 'violates_property': False})
     seen = set()
     for li, (spec, o, rs) in enumerate(lenses):
+        pp = c03lib.entered_problems(o, spec)
+        if pp:
+            hist['prescription_problems'] += 1
+            res['disagreements'].append({'spec': spec, 'route': spec.get('route'), 'oracle': pp, 'violates_property': True})
         for ri, (ray, via, r) in enumerate(rs):
             if r[0] == 'ok' and all(math.isfinite(v) for v in r[1][:6]) and (li, ray) not in seen:
                 seen.add((li, ray))
                 res['nontrivial'] += 1
-            eff = ray if via == 'generate' else (_generic_pupil(o, ray) if r[0] == 'ok' else ray)
+            eff = ray if via == 'generate' else (_generic_pupil(spec, ray) if r[0] == 'ok' else ray)
             bad = c03lib.check_launch(o, spec, eff, r)
             if (li, ri) in failed or bad:
                 res['disagreements'].append({'spec': spec, 'ray': list(ray), 'via': via, 'implementation': list(r),
@@ -299,11 +309,15 @@ def _trace_check(ctx):
     for i in range(ctx.n(20, 160)):
         spec = c03lib.cell_spec(rng, rng.choice(valid), nsurf=rng.choice([1, 2, 3, 4]),
                                 field_class=rng.choice(['positive', 'positive', 'negative-largest']))
+        route = c03lib.ROUTES[i % len(c03lib.ROUTES)]
+        spec['route'] = route
         try:
-            o = c03lib.build(spec)
+            o = c03lib.build(spec, route, rng)
             o.paraxial.EPL()
         except Exception:     # noqa
             continue
+        res['histogram'].setdefault('route', {})
+        res['histogram']['route'][route] = res['histogram']['route'].get(route, 0) + 1
         name = (DIST_NAMES + ['bogus'])[i % (len(DIST_NAMES) + 1)]
         n = rng.choice([1, 2, 3, 4, 6]) if name in ('hexapolar', 'uniform') else rng.choice([1, 2, 3, 5, 8, 13])
         Hy = rng.choice([0.0, 1.0, rng.uniform(-1, 1)])
@@ -450,12 +464,16 @@ def _origin_cases(ctx, per_class, salt=0):
         for j in range(per_class):
             cell = cells[(j * 5 + len(out) * 7 + (j // 2)) % len(cells)]
             spec = c03lib.cell_spec(rng, cell, nsurf=rng.choice([1, 2, 3, 5]), field_class=fc)
+            route = c03lib.ROUTES[(j + len(out)) % len(c03lib.ROUTES)]
+            spec['route'] = route
             try:
-                o = c03lib.build(spec)
+                o = c03lib.build(spec, route, rng)
                 o.paraxial.EPL()
             except Exception:    # noqa
                 continue
             hist['field_class'][fc] += 1
+            hist.setdefault('route', {})
+            hist['route'][route] = hist['route'].get(route, 0) + 1
             hist['cells']['/'.join(str(c) for c in cell)] = hist['cells'].get('/'.join(str(c) for c in cell), 0) + 1
             rs = []
             for k in range(4):
@@ -577,12 +595,13 @@ def search(ctx, broken, disagreements):
     translation or a proof failed).  Returns a LIST of witnesses, unlisted ones first."""
     import c03lib
     found = []
-    # every named sampling at every count (cheap, no lens)
+    # fixed corpus through every route, then every named sampling at every count (cheap)
+    found.extend(_corpus_witnesses()[1])
     found.extend(sampling_sweep(SWEEP_FULL)[1])
     lenses, hist = _lenses(ctx, ctx.n(6, 40), 8, salt=101)
     for spec, o, rs in lenses:
         for ray, via, r in rs:
-            eff = ray if via == 'generate' else (_generic_pupil(o, ray) if r[0] == 'ok' else ray)
+            eff = ray if via == 'generate' else (_generic_pupil(spec, ray) if r[0] == 'ok' else ray)
             bad = c03lib.check_launch(o, spec, eff, r)
             if bad:
                 found.append({'spec': spec, 'ray': list(ray), 'via': via, 'implementation': list(r), 'oracle': bad[:4],
@@ -638,31 +657,115 @@ NA_INF_REPLAY = {
     'wavelengths': [[0.55, True]], 'telecentric': False}
 
 
+def _with(spec, **kw):
+    import copy
+    d = copy.deepcopy(spec)
+    d.update(kw)
+    return d
+
+
+FINITE_HEIGHT = {
+    'object_thickness': 150.0,
+    'surfaces': [{'type': 'standard', 'radius': 80.0, 'thickness': 6.0, 'material': ['ideal', 1.62, 0.0]},
+                 {'type': 'standard', 'radius': -120.0, 'thickness': 12.0, 'material': 'air'},
+                 {'type': 'standard', 'radius': float('inf'), 'thickness': 4.0, 'material': 'air', 'is_stop': True},
+                 {'type': 'standard', 'radius': 60.0, 'thickness': 5.0, 'material': ['ideal', 1.5168, 0.0]},
+                 {'type': 'standard', 'radius': -90.0, 'thickness': 70.0, 'material': 'air'}],
+    'aperture': ['imageFNO', 5.0], 'field_type': 'object_height',
+    'fields': [[0.0, 0.0, 0.0, 0.0], [4.0, 0.0, 0.1, 0.25], [8.0, 0.0, 0.3, 0.05]],
+    'wavelengths': [[0.5876, True]], 'telecentric': False}
+
+INFINITE_VIG = {
+    'object_thickness': float('inf'),
+    'surfaces': [{'type': 'standard', 'radius': 70.0, 'thickness': 5.0, 'material': ['ideal', 1.6, 0.0]},
+                 {'type': 'standard', 'radius': -200.0, 'thickness': 9.0, 'material': 'air'},
+                 {'type': 'standard', 'radius': float('inf'), 'thickness': 60.0, 'material': 'air', 'is_stop': True}],
+    'aperture': ['EPD', 8.0], 'field_type': 'angle',
+    'fields': [[0.0, 0.0, 0.0, 0.0], [7.0, 0.0, 0.05, 0.3], [14.0, 0.0, 0.35, 0.1]],
+    'wavelengths': [[0.55, True]], 'telecentric': False}
+
+# fixed corpus: (label, prescription, route); the same rays are launched through every entry on every run, whatever the
+# seed.  Classes: the three repaired findings; telecentric lenses (valid and to-be-rejected) through every route; an
+# interior-stop finite lens and a rear-stop infinite lens with fields of vx != vy through every route (state that
+# survives reset(), alternative constructor, ready-made surfaces); largest field negative.
 REGRESSION_CASES = [
-    ('infinite-object-launched-backwards', BACKWARDS_REPLAY, (0.0, 1.0, 0.0, 0.5, 0.55)),
-    ('telecentric-na-ignores-object-index', TELE_NA_REPLAY, (0.0, 1.0, 0.0, 1.0, 0.55)),
-    ('objectNA-infinite-object-not-rejected', NA_INF_REPLAY, (0.0, 1.0, 0.0, 0.5, 0.55)),
+    ('infinite-object-launched-backwards', BACKWARDS_REPLAY, 'direct'),
+    ('telecentric-na-ignores-object-index', _with(TELE_NA_REPLAY, object_material=['ideal', 1.33, 0.0]), 'direct'),
+    ('objectNA-infinite-object-not-rejected', NA_INF_REPLAY, 'direct'),
 ]
+CORPUS = REGRESSION_CASES + (
+    [('telecentric/' + r, _with(TELE_NA_REPLAY, object_material=['ideal', 1.33, 0.0]), r) for r in ('handbuilt', 'reuse', 'roundtrip')] +
+    [('telecentric-EPD-must-reject/' + r, _with(TELE_NA_REPLAY, object_material=['ideal', 1.33, 0.0], aperture=['EPD', 6.0]), r)
+     for r in ('direct', 'reuse', 'roundtrip')] +
+    [('pupil-left-of-lens/' + r, BACKWARDS_REPLAY, r) for r in ('handbuilt', 'reuse', 'roundtrip')] +
+    [('finite-interior-stop/' + r, FINITE_HEIGHT, r) for r in ('direct', 'handbuilt', 'reuse', 'roundtrip')] +
+    [('finite-angle-fields/' + r, _with(FINITE_HEIGHT, field_type='angle', aperture=['objectNA', 0.05]), r) for r in ('direct', 'reuse')] +
+    [('infinite-vx-ne-vy/' + r, INFINITE_VIG, r) for r in ('direct', 'handbuilt', 'reuse', 'roundtrip')] +
+    [('largest-field-negative/' + r, _with(INFINITE_VIG, fields=[[0.0, 0.0, 0.0, 0.0], [-14.0, 0.0, 0.0, 0.0], [-20.0, 0.0, 0.0, 0.0]]), r)
+     for r in ('direct', 'roundtrip')] +
+    [('largest-height-negative/reuse', _with(FINITE_HEIGHT, aperture=['EPD', 9.0],
+                                              fields=[[-6.0, 0.0, 0.0, 0.0], [0.0, 0.0, 0.0, 0.0], [3.0, 0.0, 0.0, 0.0]]), 'reuse')]
+)
+CORPUS_RAYS = [(0.0, 1.0, 0.0, 0.0), (0.0, 1.0, 0.0, 1.0), (0.0, -0.6, 0.5, -0.7), (0.0, 0.5, -1.0, 0.0), (0.0, 0.0, 0.6, 0.8)]
+
+
+def _corpus_cases():
+    import random, warnings
+    import c03lib
+    warnings.simplefilter('ignore')
+    out = []
+    for k, (label, spec, route) in enumerate(CORPUS):
+        spec = _with(spec, route=route)
+        if spec.get('object_material'):
+            spec['object_index'] = spec['object_material'][1]
+        try:
+            o = c03lib.build(spec, route, random.Random(1000 + k))
+        except Exception as e:     # noqa
+            out.append((label, spec, None, [('build', None, ('err', type(e).__name__, str(e)[:100]))]))
+            continue
+        w = spec['wavelengths'][0][0]
+        rs = []
+        for ri, (Hx, Hy, Px, Py) in enumerate(CORPUS_RAYS):
+            via = 'generate' if ri % 2 == 0 else 'generic'
+            ray = (Hx, Hy, Px, Py, w)
+            rs.append((ray, via, c03lib.impl_launch(o, *ray, via)))
+        out.append((label, spec, o, rs))
+    return out
+
+
+def _corpus_witnesses():
+    """implementation-level verdict on the fixed corpus (no Coq)"""
+    import c03lib
+    wit, n, hist = [], 0, {'routes': {}, 'entries': len(CORPUS)}
+    for label, spec, o, rs in _corpus_cases():
+        hist['routes'][spec['route']] = hist['routes'].get(spec['route'], 0) + 1
+        if o is None:
+            wit.append({'corpus': label, 'spec': spec, 'oracle': [{'kind': 'route-cannot-build-the-lens', 'error': list(rs[0][2][1:])}],
+                        'violates_property': True})
+            continue
+        pp = c03lib.entered_problems(o, spec)
+        if pp:
+            wit.append({'corpus': label, 'spec': spec, 'route': spec['route'], 'oracle': pp, 'violates_property': True})
+        for ray, via, r in rs:
+            n += 1
+            eff = ray if via == 'generate' or r[0] != 'ok' else _generic_pupil(spec, ray)
+            bad = c03lib.check_launch(o, spec, eff, r)
+            if bad:
+                wit.append({'corpus': label, 'spec': spec, 'route': spec['route'], 'ray': list(ray), 'via': via,
+                            'implementation': list(r), 'oracle': bad[:4], 'violates_property': True})
+                break
+    return n, wit, hist
 
 
 def _regression_check(ctx):
-    """the prescriptions of the three repaired findings, replayed on the implementation on every run"""
-    import warnings
-    import c03lib
-    warnings.simplefilter('ignore')
-    res = {'name': 'former-findings-regression', 'n': 0, 'nontrivial': 0, 'histogram': {}, 'samples': [], 'disagreements': []}
-    for fid, spec, ray in REGRESSION_CASES:
-        o = c03lib.build(spec)
-        for via in ('generate', 'generic'):
-            r = c03lib.impl_launch(o, *ray, via)
-            eff = ray if via == 'generate' or r[0] != 'ok' else _generic_pupil(o, ray)
-            bad = c03lib.check_launch(o, spec, eff, r)
-            res['n'] += 1
-            res['nontrivial'] += 1
-            res['histogram'][fid] = 'raises ' + r[1] if r[0] != 'ok' else 'launched'
-            if bad:
-                res['disagreements'].append({'spec': spec, 'ray': list(ray), 'via': via, 'implementation': list(r),
-                                             'regression_of': fid, 'oracle': bad[:4], 'violates_property': True})
+    """fixed corpus (repaired findings, telecentric lenses, stale-state and alternative-constructor routes, fields with
+    vx != vy, largest field negative), replayed on the implementation on every run whatever the seed"""
+    res = {'name': 'fixed-corpus-all-routes', 'n': 0, 'nontrivial': 0, 'histogram': {}, 'samples': [], 'disagreements': []}
+    n, wit, hist = _corpus_witnesses()
+    res['n'] = res['nontrivial'] = n
+    res['histogram'] = hist
+    res['disagreements'] = wit
+    res['samples'].append({'corpus_labels': [c[0] for c in CORPUS][:6]})
     return res
 
 
